@@ -11,7 +11,7 @@ SHARDS = {"quick": 16, "thorough": 16}
 RULE = (
     "Hypothesis generates call trees (as C10) with a context-argument dict at the root (or none) and overrides - including the empty dict - on arbitrary inner edges; "
     "half of the functions accept **kwargs so leakage into parameters is observable; the tree is run under root context 1 on an empty store, then under root context 2 on the same store, "
-    "and once with further calls prevented (on an empty store and on a store where every sub-call is already memoized). Oracle: a model of inheritance (effective context of an edge = its "
+    "and once with further calls prevented (on an empty store and on a store where every sub-call is already memoized); the prevention is also attached to an inner edge (t0 calls its first callee with further calls prevented: the callee's body may run, everything beneath it must fail with RuntimeError, memoized or not). Oracle: a model of inheritance (effective context of an edge = its "
     "override if it attaches one, else the caller's): the recorded context_args and arg hash of every nested invocation equal the model; under the second root context exactly the calls whose "
     "effective (function, argument, context) is new run, the others are served; no body ever receives a context key as a parameter; with further calls prevented every nested memento call "
     "raises RuntimeError and no nested body runs. Non-trivial = an override below an inherited context, or two root contexts sharing a subtree; distinct by (tree, contexts)."
@@ -184,10 +184,44 @@ def execute(case, scratch):
                 if first is not None and first["a"] == "batch" and not (kind == "exc" and isinstance(res, RuntimeError)):
                     out.violation("with further calls prevented a nested call_batch did not raise RuntimeError (root outcome %s %r)" % (kind, res),
                                   symptom="prevented-call-not-refused", store=variant)
+        # prevention attached to an inner edge: t0 makes one call "with further calls prevented"; the callee's own body may
+        # run, but every memento call made beneath it must fail with RuntimeError and no deeper body may run
+        inner = next((a for a in prog["nodes"].get("t0", []) if a["a"] == "call"), None)
+        if not out.violations and inner is not None and any(a["a"] in ("call", "batch") for a in prog["nodes"].get(inner["fn"], [])):
+            import copy
+            p2 = copy.deepcopy(prog)
+            p2["nodes"]["t0"] = [dict(inner, prevent=True, catch=True, ctx=None)]
+            tname, targ = inner["fn"], x + inner.get("d", 0)
+            for variant in ("empty", "populated"):
+                _fresh(case, d, "inner-" + variant)
+                if variant == "populated":
+                    trees.begin(dict(p2, nodes=dict(p2["nodes"], t0=[dict(inner, catch=True, ctx=None)])), files)
+                    _run_root(None, x)
+                    for fn_, a_ in (("t0", x), (tname, targ)):
+                        try:
+                            trees.FUNCS[fn_].forget(a_)
+                        except Exception:
+                            pass
+                trees.begin(p2, files)
+                trees.take_trace()
+                _run_root(None, x)
+                tr = trees.take_trace()
+                deeper = [(r["node"], r["x"]) for r in tr if r["node"] not in ("t0", tname) or (r["node"] == tname and r["x"] != targ)]
+                if deeper:
+                    out.violation("a call made with further calls prevented (inner edge t0 -> %s, %s store): bodies beneath it ran: %r" % (tname, variant, deeper),
+                                  symptom="prevented-call-executed", store=variant, edge="inner")
+                for r in tr:
+                    if r["node"] == tname and r["x"] == targ:
+                        bad = [c for c in r["calls"] if c["outcome"] not in ("exc:RuntimeError", None, "batch")]
+                        if bad:
+                            out.violation("a call made with further calls prevented (inner edge t0 -> %s, %s store): its nested call %s(%s) gave %s instead of RuntimeError" % (
+                                tname, variant, bad[0]["fn"], bad[0]["arg"], bad[0]["outcome"]), symptom="prevented-call-not-refused", store=variant, edge="inner")
+            trees.begin(prog, files)
+            out.labels.append("prevent-on-inner-edge")
         overrides_below = _has_override_below_inherited(prog, c1) or _has_override_below_inherited(prog, c2)
         shared = _norm(c1) != _norm(c2) and len(model.store) > 2
         out.nontrivial = overrides_below or shared
-        out.labels = ["backend:" + case["backend"]] + (["override-below-inherited"] if overrides_below else []) + \
+        out.labels = out.labels + ["backend:" + case["backend"]] + (["override-below-inherited"] if overrides_below else []) + \
             (["two-contexts"] if _norm(c1) != _norm(c2) else []) + (["empty-override"] if _has_empty_override(prog) else [])
         out.nt_key = [prog, c1, c2]
         return out
